@@ -347,6 +347,27 @@ func famZ8(counts []int) []xferCase {
 	return out
 }
 
+// famZ9: the peer's window is small but not zero (a lagging reader behind a small receive
+// buffer) when a chunk is lost: the earliest outstanding chunk is retransmitted although it
+// does not fit the window the sender believes in (nothing else would ever reopen it).
+func famZ9(modes []modeSpec, k int) []xferCase {
+	var out []xferCase
+	for _, mode := range modes {
+		for _, rb := range []uint32{2500, 3000} {
+			a := withBase(mode.A, 1200, 0xFFFFFFF0, 4000)
+			b := withBase(mode.B, 1200, 9, 4000)
+			b.RecvBuf = rb
+			out = append(out, xferCase{
+				Name: fmt.Sprintf("Z9/%s/rbuf%d", mode.Name, rb),
+				K:    k,
+				Spec: &xferSpec{A: a, B: b, Faults: faultSet{Drop: true}, PauseReader: 5 * time.Second, NoSackComplete: true,
+					Streams: []streamSpec{{SID: 1, From: 0, Msgs: []msgSpec{{Size: 800, PPI: 53}, {Size: 801, PPI: 53}, {Size: 802, PPI: 53}, {Size: 40, PPI: 53}}}}},
+			})
+		}
+	}
+	return out
+}
+
 // famZ7: blocking-write mode against a window that closes: single-chunk messages, so that the
 // zero-window probe carries the last (only) chunk of a write; the reader resumes later.
 func famZ7(modes []modeSpec, k int) []xferCase {
